@@ -33,7 +33,7 @@ from concurrent.futures import ThreadPoolExecutor
 
 from harness import tlc
 
-_REPO = os.environ.get("VERIF_REPO_PATH")
+_REPO = os.environ.get("VERIF_REPO") or os.environ.get("VERIF_REPO_PATH")
 if _REPO:
     sys.path.insert(0, _REPO)
 
